@@ -72,6 +72,18 @@ pub fn small_text() -> BoxedStrategy<String> {
         1 => Just(String::new()),
         1 => Just("a:b".to_string()),
         1 => Just(":".to_string()),
+        // strings an implementation might be tempted to normalise (quotes, surrounding blanks,
+        // case, precomposed vs combining characters, control characters)
+        2 => ("[a-zA-Z.]{1,10}", 0u8..8).prop_map(|(w, how)| match how {
+            0 => format!("\"{}\"", w),
+            1 => format!(" {} ", w),
+            2 => format!("\"{}", w),
+            3 => w.to_uppercase(),
+            4 => format!("{}\u{301}e\u{e9}", w),
+            5 => format!("{}\t\n", w),
+            6 => format!("'{}'", w),
+            _ => format!("{}\u{0}x", w),
+        }),
     ]
     .boxed()
 }
@@ -87,6 +99,23 @@ pub fn tid_strategy() -> BoxedStrategy<u128> {
         1 => (0u32..96).prop_map(|b| 1u128 << b),
     ]
     .boxed()
+}
+
+/// IPv6 addresses with a special meaning to some stacks (IPv4-mapped, IPv4-compatible, NAT64,
+/// loopback, unspecified, link-local, multicast, 6to4): the ones an implementation might be
+/// tempted to normalise
+pub fn special_v6(seed: u64) -> u128 {
+    let v4 = (seed >> 8) as u32 as u128;
+    match seed % 10 {
+        0 | 1 | 2 => (0xffffu128 << 32) | v4,               // ::ffff:a.b.c.d
+        3 => v4,                                            // ::a.b.c.d
+        4 => (0x0064_ff9bu128 << 96) | v4,                  // 64:ff9b::a.b.c.d
+        5 => 1,                                             // ::1
+        6 => (0xfe80u128 << 112) | (seed as u128 >> 3),     // fe80::/10
+        7 => (0xff02u128 << 112) | 1,                       // ff02::1
+        8 => (0x2002u128 << 112) | (v4 << 80),              // 6to4
+        _ => (0xffffu128 << 32) | 0x7f00_0001,              // ::ffff:127.0.0.1
+    }
 }
 
 pub fn sockaddr_strategy() -> BoxedStrategy<String> {
@@ -111,6 +140,7 @@ pub fn sockaddr_strategy() -> BoxedStrategy<String> {
         1 => Just(u128::MAX),
         1 => Just(0x2112_A442u128 << 96),
         1 => (0u32..128).prop_map(|b| 1u128 << b),
+        3 => any::<u64>().prop_map(special_v6),
     ];
     prop_oneof![
         (v4, port.clone()).prop_map(|(a, p)| SocketAddr::new(IpAddr::V4(Ipv4Addr::from(a)), p).to_string()),
@@ -862,4 +892,52 @@ pub fn apply_mutations(buf: &mut [u8], muts: &[(u32, u8)]) {
         let i = ((*pos as u64 * buf.len() as u64) >> 32) as usize;
         buf[i] ^= x;
     }
+}
+
+// ---------------------------------------------------------------------------------------------
+// raw fuzz inputs
+
+/// Turn arbitrary bytes into a buffer that gets past header validation: top bits cleared, magic
+/// cookie set, length field consistent, attribute lengths clipped so that the TLVs tile the body.
+/// With `fix_fp` the first 4-byte FINGERPRINT gets the CRC the RFC prescribes. Used by the raw
+/// fuzz checks so that the fuzzer spends its time behind the parser's first checks.
+pub fn repair_message(data: &[u8], fix_fp: bool) -> Vec<u8> {
+    let mut b = data.to_vec();
+    if b.len() < 20 {
+        b.resize(20, 0);
+    }
+    let body = ((b.len() - 20) & !3).min(65_532);
+    b.truncate(20 + body);
+    b[0] &= 0x3f;
+    b[4..8].copy_from_slice(&refstun::COOKIE.to_be_bytes());
+    refstun::set_len(&mut b);
+    let end = b.len();
+    let mut off = 20;
+    let mut fp_at: Option<usize> = None;
+    while off + 4 <= end {
+        let len = u16::from_be_bytes([b[off + 2], b[off + 3]]) as usize;
+        let room = end - off - 4;
+        let len = if refstun::pad4(len) > room {
+            b[off + 2..off + 4].copy_from_slice(&(room as u16).to_be_bytes());
+            room
+        } else {
+            len
+        };
+        let ty = u16::from_be_bytes([b[off], b[off + 1]]);
+        if ty == refstun::T_FP && len == 4 && fp_at.is_none() {
+            fp_at = Some(off);
+        }
+        off += 4 + refstun::pad4(len);
+    }
+    if let (true, Some(at)) = (fix_fp, fp_at) {
+        let v = refstun::fingerprint_value(&b, at);
+        b[at + 4..at + 8].copy_from_slice(&v.to_be_bytes());
+    }
+    b
+}
+
+/// bytes of a raw fuzz case as stored in replay files: {"bytes": "<hex>"}
+pub fn raw_case_bytes(case: &serde_json::Value) -> Result<Vec<u8>, String> {
+    let h = case.get("bytes").and_then(|v| v.as_str()).ok_or("raw case without a bytes field")?;
+    crate::common::unhex(h)
 }
